@@ -237,6 +237,7 @@ func (c08) Run(c *Ctx, csAny any) Outcome {
 		}
 	}
 	var failed bool
+	failText := ""
 	if cs.Stream != nil {
 		res := RunFuzzCfg(cfg, x.Prop, WordsToBytes(cs.Stream))
 		x.Finish()
@@ -250,6 +251,9 @@ func (c08) Run(c *Ctx, csAny any) Outcome {
 		obs := RunCheck(cfg, x.Prop)
 		x.Finish()
 		failed = obs.Failed
+		if rep := ParseReport(obs); rep.Kind != "only" {
+			failText = rep.Kind + " " + rep.Msg
+		}
 		if obs.Escaped != nil {
 			out.Viol = violf("C08:panic-escaped", "a panic escaped rapid.Check: %v", obs.Escaped)
 			return out
@@ -257,6 +261,10 @@ func (c08) Run(c *Ctx, csAny any) Outcome {
 	}
 	if rs.SM != "" {
 		classes["StateMachineActions-"+rs.SM] = true
+		if v := smDirect(rs.SM); v != nil && out.Viol == nil {
+			out.Viol = v
+			return out
+		}
 	}
 	for k := range classes {
 		out.Classes = append(out.Classes, k)
@@ -268,6 +276,16 @@ func (c08) Run(c *Ctx, csAny any) Outcome {
 	}
 	if viol != nil {
 		out.Viol = viol
+		return out
+	}
+	anyFalsified := false
+	for _, inv := range x.Log {
+		if inv.Falsified {
+			anyFalsified = true
+		}
+	}
+	if failed && !anyFalsified && (failText != "" || cs.Stream != nil) {
+		out.Viol = violf("C08:failure-without-falsification", "the state machine run failed (%s) although no action or invariant signalled a failure and an action was always able to run", failText)
 		return out
 	}
 	for _, inv := range x.Log {
